@@ -155,6 +155,7 @@ package eventbus
 //@   requires event != nil
 //@   ensures [C15.def] result == evName(dynType(event))
 
+//@ event withTimeoutCall := call WithTimeout
 //@ func (*EventBus).persistEvent
 //@   props C13 C09 C15 C20
 //@   requires bus != nil && ctx != nil && event != nil
@@ -180,6 +181,8 @@ package eventbus
 //@   ensures [C13.append.fail.args] bus.store != nil && jsonOK(event) && saveErr != nil && bus.persistenceErrorHandler != nil ==>
 //@        lastarg(persistErr, 1, Iface) == event && lastarg(persistErr, 2) == eventType && lastarg(persistErr, 3, Iface) != nil
 //@   ensures [C13.append.ok] bus.store != nil && jsonOK(event) && saveErr == nil ==> cnt(persistErr) == 0
+//@   at call:context.CancelFunc assert [C13.cancel.after] {C13} cnt(Append) == 1
+//@   ensures [C13.notimeout] {C13} bus.persistenceTimeout <= 0 ==> cnt(cancel) == 0 && cnt(withTimeoutCall) == 0
 //@   ensures [C13.timeout] bus.store != nil && jsonOK(event) && bus.persistenceTimeout > 0 ==>
 //@        cnt(cancel) == 1 && descends(lastarg(Append, 1, Iface), ctx)
 //@   ensures [C13.ctx] bus.store != nil && jsonOK(event) ==> descends(lastarg(Append, 1, Iface), ctx)
